@@ -51,7 +51,7 @@ CLAIMS = {
             "§3.8, §4 C13"),
     "C14": ("static effect/alias analysis + parallel-loop discipline",
             "PURE over the query path (no shared write => no data race) and PAR on gwb-grid's parallel_for (disjoint affine "
-            "element stores, chained ranges, join post-dominates every launch)",
+            "element stores, chained ranges, join post-dominates every launch and is guarded by joinable() because launches are conditional)",
             "§3.1, §3.11, §4 C14"),
     "C15": ("entropy-discipline lint + effect analysis + computer-algebra identity",
             "RNG (banned entropy sources, every draw on the owning world's engine, engine written only from the seed argument "
@@ -72,7 +72,7 @@ CLAIMS = {
 CLAIMS.update({
     "C17": ("symbolic layout agreement (polynomial offsets) + index-guard dominance",
             "LAYOUT L4 for gwb-dat: request list vs library width table vs printed offsets vs header column count for dim 2 "
-            "and 3 (polynomials in compositions, grain compositions, grains); row query argument provenance; every literal "
+            "and 3 (polynomials in compositions, grain compositions, grains), one request block per printed column group; row query argument provenance; every literal "
             "token index guarded by a size test; DAT.input: lines tokenised unmodified, option lines order-independent, only empty and "
             "'#' rows skipped before the arity check, 2D refusal of 'convert spherical' before any output. Known findings: 2D offsets, 3D header",
             "§3.2, §3.4, §4 C17"),
@@ -131,7 +131,7 @@ CLAIMS.update({
             "and thicknesses, coordinates, radius), the depth cut-off is >= min depth + L + T with derived fields resolved through parse_entries, spherical buffer factor > 1, both longitude buffers of the spherical box dominate b/cos(lat) at both "
             "trench ends (DEP.bbox-lon), max-accumulators cover all sections x segments x both "
             "components, depth-surface pairing (min<-minimum, max<-maximum, same side everywhere), full-scan fallback before "
-            "Surface::local_value throws, who-may-call of alias-unaware implementations. Numeric sufficiency of the buffer near the poles "
+            "Surface::local_value throws (every triangle, point and alias; skip flags set and read through the same index member), who-may-call of alias-unaware implementations. Numeric sufficiency of the buffer near the poles "
             "and kd-tree pruning arithmetic are not decided",
             "§3.10, §3.4, §4 C07"),
     "C08": ("who-may-call + alias-wrapper shape + twin-block comparison + shift-degree abstract interpretation",
